@@ -76,6 +76,9 @@ func main() {
 		ClassifyDeath: func(c *ev.Check, o *run.Outcome) bool {
 			// test-mode servers and clients end their own process after 120 s of
 			// life: on a starved machine that is a watchdog, not a finding
+			if o.ExitCode == 66 && len(o.Races) > 0 {
+				return true // the race runtime's exit status; the reports themselves are raised as violations
+			}
 			if strings.Contains(o.Stderr, "lived for longer than 120 seconds") || strings.Contains(o.Stderr, "was not closed during testing") {
 				c.Inconc(fmt.Sprintf("batch %d outlived the 120 s test-mode limit of the code under test (machine too slow)", o.Batch.Index))
 				return true
@@ -148,7 +151,7 @@ func raceChild(b run.Batch, r *ev.Result) {
 		r.Inconc(err.Error())
 		return
 	}
-	for i := 0; i < 12; i++ {
+	for i := 0; i < 48; i++ {
 		loc, hp := deadLocation(rng, 1+i%4)
 		a := refenc.AuthServer{Pub: refenc.GenKey(rng).Pub, Location: loc, HTTP: hp, TCP: uint16(rng.Intn(65536)), UDP: uint16(rng.Intn(65536))}.Signed(s.GCA.Priv)
 		if !s.postServer(a) {
@@ -158,8 +161,14 @@ func raceChild(b run.Batch, r *ev.Result) {
 	var req [4]byte
 	binary.LittleEndian.PutUint32(req[:], s.A.ID)
 	cell := 0
-	for _, point := range []string{"sync.afterCopy", "sync.ready", "sync.afterCopy", "sync.ready", "sync.afterCopy", "sync.afterCopy"} {
-		for _, delay := range []time.Duration{0, 200 * time.Microsecond, 2 * time.Millisecond} {
+	// The detector can only speak when nothing orders the two accesses. The
+	// reply is signed right after the list was read and the ban is verified
+	// right before it is written, and both hash through one pool of hashers
+	// (a release/acquire pair for the detector): a ban that starts late is
+	// ordered after the read by that pool. Hence many cells, started at once.
+	for rep := 0; rep < 16; rep++ {
+		point := []string{"sync.afterCopy", "sync.ready"}[rep%2]
+		for _, delay := range []time.Duration{0, 0, 100 * time.Microsecond} {
 			if cell >= len(s.model) {
 				break
 			}
@@ -187,8 +196,12 @@ func raceChild(b run.Batch, r *ev.Result) {
 			})
 			run.Op("race cell %d: sync with a ban injected at %s after %v", cell, point, delay)
 			raw, err := s.SyncRaw(req[:])
-			server.VerifSetHook(point, func(*server.GCAServer) {})
+			// Nothing that the interfering goroutine could synchronise with may
+			// happen here before it is done (the hook table is such a thing: this
+			// goroutine has just read the reply from a socket, which orders it
+			// after the handler; a write to the table would pass that order on).
 			if !fired.Load() {
+				server.VerifSetHook(point, func(*server.GCAServer) {})
 				r.Count("race.hook_not_reached."+point, 1)
 				r.Inconc("instrumented point " + point + " was not reached by a sync request")
 				return
@@ -199,6 +212,7 @@ func raceChild(b run.Batch, r *ev.Result) {
 				r.Inconc("injected ban did not return")
 				return
 			}
+			server.VerifSetHook(point, func(*server.GCAServer) {})
 			r.Eval(1)
 			r.Nontrivial(fmt.Sprintf("%s/cell%d", s.label, cell))
 			r.Count("race.cells", 1)
